@@ -748,9 +748,9 @@ class DAGRunConcurrentManager(DAGRunManagerLike):
             await self.__unlock_descendants(node_id)
             await self.__unlock_run_method()
 
-            if node_id == dag.dest:
-                logger.debug('The node %s is an output node', node_id)
-                await self.__unlock_itself(node_id)
+            # The node may be the destination of the current dag or a OneOf candidate that has been executed by
+            # another dag: whoever waits for the node itself has to be woken.
+            await self.__unlock_itself(node_id)
 
     async def __unlock_itself(self, node_id: NodeId) -> None:
         """
